@@ -130,6 +130,22 @@ def expectedStageStarts : List StageStart := [
   { fn := "startValidate", wg := .validated, count := "1" }
 ]
 
+/-- The goroutine that turns a stop request into the broker's stop state: the flags are set (under the
+    mutex) BEFORE the broadcast on the unbuffered `chStop`, which only the scanner reads and only when it
+    is idle between two scans. The model's actions `stopGraceful` / `stopNow` publish the flags at the
+    moment of the request; with the broadcast first, the flags would be published only once the scanner is
+    idle again — never, if it is blocked handing on a batch. -/
+def expectedStopGoroutine : List String := [
+  "var stopGraceful bool",
+  "select",
+  "broker.stopMux.Lock()",
+  "broker.stop = true",
+  "broker.stopGraceful = stopGraceful",
+  "broker.stopMux.Unlock()",
+  "broker.chStop <- stopGraceful",
+  "close(broker.chStop)"
+]
+
 def expectedExits : List ExitStmt := [
   { fn := "Start", stmt := "return", path := ["if broker.shouldStopNow()"] },
   { fn := "startScan", stmt := "return", path := ["for", "if len(found) > 0", "if !sendCh(broker.shouldStopNow, broker.chScanned, found, 0)"] },
